@@ -755,7 +755,9 @@ func genC08(rng *rand.Rand, seed uint64, tier string) *Script {
 		// prediction first: the predicted tx must be the first of the next block, on exactly this state
 		if rng.IntN(2) == 0 {
 			p := Op{K: "predict", W: pred, Mut: pick(rng, "call", "call", "estimate"), Typ: rng.IntN(2)}
-			switch rng.IntN(8) {
+			switch rng.IntN(9) {
+			case 8: // needs much more gas than it uses: reverts / burns everything below a threshold
+				p.To, p.Data, p.Gas, p.Note = "c:gate", hexWord(pick(rng, 200000, 90000, 600000))+hexWord(rng.IntN(2)), pick(rng, "800000", "300000", "1000000"), "gas_gate"
 			case 0:
 				p.To, p.Data, p.Gas, p.Note = "c:nest", hexWord(1+rng.IntN(5)), pick(rng, "120000", "200000", "400000", "70000"), "nest"
 			case 1:
